@@ -467,8 +467,12 @@ def plain_labels(prog):
             elif k == "msgswitch":
                 out.append(("msg", s[1], s[2], tuple(s[3])))
             elif k == "with":
-                out.append(("with", s[1], s[2]))
-                walk([s[3]])
+                if s[3][0] == "op" and s[3][3] is None:
+                    # `with (actor X) { op(); }` and `op<actor X>();` are two spellings of the same statement
+                    out.append(("op", s[3][1], tuple(s[3][2]), (s[1], s[2])))
+                else:
+                    out.append(("with", s[1], s[2]))
+                    walk([s[3]])
             elif k == "if":
                 for _, _, b in s[1]:
                     walk(b)
